@@ -267,7 +267,7 @@ Definition content_length (e : env) : option Z := parse_int_safe (dict_get k_CL 
 
 Definition is_body_readable (e : env) : bool :=
   match content_length e with
-  | Some n => negb (n =? 0)%Z
+  | Some n => (0 <? n)%Z              (* only a positive length is a body *)
   | None => e_term e
   end.
 
@@ -276,7 +276,7 @@ Definition acquire (e : env) : res (env * bytes) :=
   if negb (is_body_readable e) then Ok (e, [])
   else if e_seekable e then
          match content_length e with
-         | Some n => if (n <? 0)%Z || (Z.of_nat (length (e_input e)) <=? n)%Z then Ok (e, e_input e)
+         | Some n => if (Z.of_nat (length (e_input e)) <? n)%Z then Er (A "DisconnectionError")   (* short input *)
                      else Ok (e, firstn (Z.to_nat n) (e_input e))
          | None => Ok (e, e_input e)
          end
@@ -535,13 +535,13 @@ Definition resp_clen (hl : list (str * str)) : res Z :=
 Definition resp_from_file (text : bool) (conv : str -> res bytes) (s : str) : res (resp * str) :=
   let '(l0, s1) := readline s in
   let st0 := strip_by is_space_bytes l0 in
+  let http := starts_with (A "HTTP/") st0 in
   let status :=
-    if starts_with (A "HTTP/") st0 then
+    if http then
       match split_ws_max (space_of text) 2 st0 with
       | [_; num; txt] => Ok (num ++ [32] ++ txt)
       | _ => Er e_Value
       end
-    else if negb text && negb (ascii_only st0) then Er (A "UnicodeDecodeError")   (* bytes status: .decode("ascii") *)
     else Ok st0 in
   match status with
   | Er x => Er x
@@ -549,6 +549,8 @@ Definition resp_from_file (text : bool) (conv : str -> res bytes) (s : str) : re
       match rhdr_loop (S (length s1)) [] s1 with
       | Er x => Er x
       | Ok (hl, s2) =>
+          (* cls(status=...): a status still in bytes is decoded as ASCII by the status setter *)
+          if negb text && negb http && negb (ascii_only status) then Er (A "UnicodeDecodeError") else
           match status_ok status with
           | Er x => Er x
           | Ok _ =>
